@@ -312,20 +312,20 @@ Proof. unfold counts. cbn. rewrite !zsum_zero; auto. Qed.
 Lemma init_inv progs : Inv (init progs).
 Proof.
   exists g0. constructor; try rewrite init_counts; cbn.
-  - intros t. constructor; cbn; auto. lia.
+  - intros t. constructor; cbn; auto.
   - intros t _. eauto.
   - intros t. repeat split.
   - reflexivity.
-  - unfold fields_ok; cbn. rewrite FW_val. lia.
+  - unfold fields_ok; cbn. lia.
   - intros; lia.
   - lia.
   - lia.
-  - intros []; cbn; auto.
-  - intros []; unfold nodes; cbn; repeat constructor; auto.
-  - intros []; constructor.
+  - intros sd; auto.
+  - intros []; unfold nodes; cbn; repeat constructor; cbn; tauto.
+  - intros _; constructor.
   - intros sd w H; discriminate.
-  - intros [] n; unfold nodes; cbn; intros [<-|[]]; reflexivity.
-  - intros t _. replace (2 + 1 + t)%nat with (S (S (S t))) by lia. reflexivity.
+  - intros [] n [<-|[]]; reflexivity.
+  - reflexivity.
   - intros t. exact I.
   - intros u. exact I.
   - intros u v [].
